@@ -107,19 +107,11 @@ func noMatchBefore(fl *Flow, at ssa.Instruction, isList func(string) bool, match
 		if !negative {
 			return
 		}
-		mc, _ := call.Call.Args[1].(*ssa.MakeClosure)
-		if mc == nil {
+		pf, ok := predicateFacts(fl, call.Call.Args[1])
+		if !ok {
 			return
 		}
-		cl, _ := mc.Fn.(*ssa.Function)
-		if cl == nil {
-			return
-		}
-		ways := trueEdges(NewFlow(fl.P, cl))
-		if len(ways) != 1 {
-			return
-		}
-		if match(closureFactsInOuter(fl, mc, cl, ways[0]), "elem") {
+		if match(pf, "elem") {
 			idiom = "slices search with predicate closure"
 		}
 	})
@@ -218,4 +210,47 @@ func scanExitDominates(miss *ssa.BasicBlock, at ssa.Instruction) bool {
 	}
 	// and `at` is reachable from the header's exit at all
 	return true
+}
+
+// predicateFacts resolves a predicate function value used in fl.Fn (a literal, a local holding
+// one, or the result of a constructor of the module that returns one) and returns the facts of
+// its single "true" outcome in fl.Fn's terms: the predicate's first parameter is "elem", captured
+// variables are replaced by what they are bound to (constructor parameters by the arguments).
+func predicateFacts(fl *Flow, v ssa.Value) ([]Fact, bool) {
+	cl, env := resolveClosure(fl, v)
+	if cl == nil {
+		return nil, false
+	}
+	ways := trueEdges(NewFlow(fl.P, cl))
+	if len(ways) != 1 {
+		return nil, false
+	}
+	sub := func(k string) string {
+		k = cp0Re.ReplaceAllString(k, "elem")
+		k = derefFvRe.ReplaceAllStringFunc(k, func(m string) string {
+			if val, ok := env["*"+m[4:]]; ok {
+				return val
+			}
+			return m
+		})
+		k = fvRe.ReplaceAllStringFunc(k, func(m string) string {
+			if val, ok := env[m[3:]]; ok {
+				return val
+			}
+			return m
+		})
+		return normSel(k)
+	}
+	var out []Fact
+	for f := range ways[0] {
+		g := Fact{f.Op, sub(f.L), ""}
+		if f.R != "" {
+			g.R = sub(f.R)
+		}
+		if (g.Op == "==" || g.Op == "!=") && g.L > g.R {
+			g.L, g.R = g.R, g.L
+		}
+		out = append(out, g)
+	}
+	return out, true
 }
